@@ -1,4 +1,6 @@
 """C10 - concurrent use is race-free and deadlock-free; shutdown completes."""
+import vselftest
+from checks import selfmut
 import json
 import re
 
@@ -39,6 +41,13 @@ def main(c):
         c.cov["prefix_shutdown_models_violated_as_expected"] = bad
     td = c.drive(drv, "c10", replay=c.replay)
     rejects, _ = c.validate_traces(specs, "Conc_Trace.tla", "Conc_Trace.cfg", td)
+    if not c.replay:
+        c.cov["binding_selftest"] = vselftest.run(c, specs, "Conc_Trace.tla", "Conc_Trace.cfg", td, {r["scn"] for r in rejects}, [
+            ("race report", selfmut.conc("race", "WARNING: DATA RACE")),
+            ("Close did not return", selfmut.conc("returned", False)),
+            ("goroutine left", selfmut.conc("leaked", ["vaxis.(*Vaxis).openTty.func1"])),
+            ("poster order", selfmut.poster_order),
+        ])
     idx = c.load_index(td)
     c.count_distinct(idx, nontrivial=lambda s: True)
     for s in list(idx.values())[:3]:
